@@ -86,6 +86,9 @@ def case_st(draw):
                                 rel=draw(st.sampled_from([0.02, 0.1, 0.3])), shift=[draw(st.floats(-0.4, 0.4)) for _ in range(3)],
                                 centred=True, by_size=False, edge=False, corner=None)
                 p["pos"].pop("axes_abs", None)
+        if draw(st.integers(0, 3)) == 0:
+            # a cell-size criterion next to the level criterion: it filters rows, it does not move the cap
+            p["dx"] = {"op": draw(st.sampled_from([">", ">", "<"])), "k": draw(st.integers(1, case["levelmax"]))}
         # other groups named in the selection next to the mesh (before or after it)
         p["other"] = draw(st.sampled_from([None, None, None, ["part", False, "before"], ["part", False, "after"],
                                            ["sink", False, "after"], ["part", {}, "before"]]))
@@ -123,7 +126,11 @@ def level_limited(case, r):
             if refined_at_L:
                 r.label("truncation_matters")
                 r.nontrivial()
-            if accepts_all and not res["pos"] and not res["val"]:
+            if res.get("dx"):
+                r.label("dx_criterion")
+                if res["dx"][0] == ">" and spec["dx"]["k"] < L and refined_at_L:
+                    r.label("dx_criterion_coarser_than_cap")
+            if accepts_all and not res["pos"] and not res["val"] and not res.get("dx"):
                 r.label("tiling_case")
             sel = rs.build_select(osyris, res, m)
             select = {"mesh": sel}
@@ -170,7 +177,7 @@ def level_limited(case, r):
                 return
             if rc.compare_mesh(osyris, mesh, m, r, exp=exp, tag="capped") is None:
                 return
-            if accepts_all and not res["pos"] and not res["val"]:
+            if accepts_all and not res["pos"] and not res["val"] and not res.get("dx"):
                 dx, _ = rc.phys(mesh["dx"])
                 vol = float(np.sum(dx ** ndim))
                 box = (m.boxlen * m.ul) ** ndim
